@@ -149,11 +149,17 @@ def _gen(seed: int, i: int, tier: str) -> dict:
 
 
 def gen(seed: int, i: int, tier: str) -> dict:
+    if i % 4 == 3:
+        from vsim.universe import gen_universe
+        return gen_universe(random.Random(f"U:C07:{seed}:{i}"), tier)
     scn = _gen(seed, i, tier)
     return G.maybe_tcp(random.Random(f"C07link:{seed}:{i}"), scn)
 
 
 def run(scn):
+    if scn.get("kind") == "universe":
+        from vsim.universe import run_universe
+        return run_universe(scn, PROP, ASPECTS, keep=None)
     st = {"parked_then_wake": False, "flushed": set()}
     proto = scn["cfg"]["pin"]
 
